@@ -49,10 +49,27 @@ RULE = ("(a) every key of the regenerated table, pattern keys of online_filter/f
         "/ other section, Configuration strict / disable_checks, a dataset's config, a loaded "
         "file) x keys valid/unknown/mixed-case x values of all representations incl. ''/None: "
         "the target equals item-by-item assignment of the source's items (state, warnings, "
-        "exception class). distinct = distinct "
+        "exception class). (f) carry-over with DATA: sources holding fluorescence maxima, traces, "
+        "images, masks (3-7 events), metadata of every stored section + user entries, the "
+        "data-describing attributes (samples per event, channel count, roi size) optionally "
+        "contradicting the data or absent (raw h5py), through export.hdf5 with a random feature "
+        "subset x event selection and through compress/repack/condense/split/join: every key of "
+        "every metadata section and of user has the source's value and type in the output, nothing "
+        "is invented; admitted deviations are only those the OUTPUT's data justify (event count; "
+        "samples per event / roi size = source or trace length / image shape; channel count = "
+        "source, number of maxima only if the source has none) and keys naming the new file; "
+        "export cases are replayed in the model (attr-store of the source configuration, "
+        "attr-rectify with the output's data shape, attr-get vs raw HDF5 attributes). (g) "
+        "keyval_str2typ on ~195 texts (numeric spellings, boolean words, list texts, quotes, "
+        "feature names, blanks, random strings) and keyval_typ2str / the text round trip on ~90 "
+        "values vs the model (guess, typ2str, textrt) and vs a Python round-trip oracle (strings "
+        "inside StrGuard verbatim, booleans, numbers within 0.5e-12, numeric lists). distinct = distinct "
         "(section,key,tagged value) cases / histories that reached a converter or a rejection "
         "branch.")
 TRUSTED_BASE = [
+    "the '{:.12f}' rendering of floats in keyval_typ2str is a parameter of the model (the harness "
+    "hands the rendered text in); the data shape of an output file (events, trace length, image "
+    "shape, fl?_max presence) is read with h5py from the documented file layout",
     "h5py/HDF5 attribute layer: its Python-type map is measured at start-up and compared with "
     "the model's `h5` (mismatch fails the correspondence); NumPy array construction/`float()` of "
     "arrays (numpy 2.x raises TypeError for ndim>0)",
@@ -78,8 +95,14 @@ NOT_PROVED = [
     "fintlist_h5_breaks); table_fintlist_not_stored shows no stored section uses it",
     "str(value) for sequences/arrays and floats without short decimal expansion is "
     "`unmodelled` (Python oracle only)",
-    "keyval_str2typ (type guessing for keys unknown to dclab), tostring rendering, "
-    "Configuration-level routes, export/compress/repack/condense/join/split: correspondence only",
+    "text round trip of strings: StrGuard proved sufficient (guess_str_roundtrip); necessity only by "
+    "one witness per clause (guess_str_outside_guard); list-of-floats round trip and the '{:.12f}' "
+    "rendering of floats (parameter fmt, handed in by the harness) are correspondence-only; lists of "
+    "booleans/strings are not re-readable (witness guess_bool_list_breaks)",
+    "whole-file tostring rendering and Configuration-level routes (item/update/cfg=/files=/copy as "
+    "one map): correspondence only; the metadata path of compress/repack (attribute copy) and of "
+    "condense/join/split beyond the shared store_metadata + rectify route (export_carries): oracle "
+    "only",
 ]
 
 INF = float("inf")
@@ -957,6 +980,12 @@ def run_replay_case(ctx, rp, attrs=None, verbose=False):
         if kind == "carry":
             entries = [(s, k, dec(t)) for s, k, t in rp["entries"]]
             return carry_through(ctx, entries, 99)
+        if kind == "guessrt":
+            from . import c11_guess
+            return c11_guess.replay_case(ctx, rp, verbose=verbose)
+        if kind == "carrydata":
+            from . import c11_carry
+            return c11_carry.replay_case(ctx, rp, verbose=verbose)
         if kind in ("reghist", "storehist", "text", "sources"):
             from . import c11_hist
             return c11_hist.replay_case(ctx, rp, verbose=verbose)
@@ -1190,6 +1219,11 @@ def run(ctx):
     c11_hist.part_store_hist(ctx, hist_lines, checks, spec_fail)
     c11_hist.part_text(ctx, hist_lines, checks, spec_fail)
     c11_hist.part_sources(ctx, hist_lines, checks, spec_fail)
+    from . import c11_carry
+    c11_carry.part_carry(ctx, hist_lines, checks, spec_fail, skeys, with_model=True)
+    from . import c11_guess
+    guess_checks = []
+    c11_guess.part_guess(ctx, hist_lines, checks, spec_fail, guess_checks)
     off = len(lines)
     lines += hist_lines
 
@@ -1217,6 +1251,14 @@ def run(ctx):
                 mirror_bad.append(f"file route '[{hdr}] {kk} = {text}': impl '{a2}' model "
                                   f"'{m_ans}'")
 
+        for li, want, what in guess_checks:
+            m = c11_guess.canon_model(out[off + li])
+            if m == "unmodelled":
+                ctx.stat("model_unmodelled")
+                continue
+            ctx.stat("guess_model_checks")
+            if m != want:
+                mirror_bad.append(f"{what}: impl '{want}' model '{m}'")
         for li, want, what, mode, deps in checks:
             m = out[off + li]
             if "unmodelled" in m:
